@@ -33,13 +33,17 @@ def run_shard(ctx, spec):
                max_states=spec.get('max_states'))
     elif spec['w'] == 'walk':
         for k in range(spec['n']):
-            ex.walk(rnd.choice([2, 2, 3, 3, 4]), maxlen=90)
+            ex.walk(rnd.choice([2, 2, 3, 3, 4, 5]), maxlen=rnd.choice([90, 90, 200]), max_reg=rnd.choice([4, 4, 8]))
+    elif spec['w'] == 'jumpoff':
+        # jump-offs of several rounds with knock-out and pass patterns, two to four tied leaders
+        for k in range(spec['n']):
+            ex.jumpoff_scenario(rnd.choice([2, 2, 3, 3, 4]), max_jo=rnd.choice([2, 3, 4]), passes=(k % 3 != 0), scripted=True)
     else:
         for k in range(spec['n']):
             if k % 3 == 2:
-                ex.jumpoff_scenario(rnd.choice([2, 3, 3, 4]), max_jo=3)
+                ex.jumpoff_scenario(rnd.choice([2, 2, 3, 3, 4]), max_jo=rnd.choice([3, 4]), passes=(k % 2 == 1), scripted=(k % 4 == 1))
             else:
-                ex.complete(rnd.choice([2, 3, 3, 4]), max_reg=rnd.choice([2, 3, 4]), max_jo=3)
+                ex.complete(rnd.choice([2, 3, 3, 4, 5, 6]), max_reg=rnd.choice([2, 3, 4, 7, 9]), max_jo=3)
     ctx.info['states'] = ex.states
     ctx.info['transitions'] = ex.transitions
     ctx.count('eval.states-expanded', ex.states)
@@ -53,11 +57,13 @@ def shards(tier, seed):
         s = [{'w': 'bfs', 'nj': 2, 'reg': 2, 'jo': 1, 'i': i, 'n': 8, 'every': 6} for i in range(8)]
         s += [{'w': 'walk', 'n': 60, 'i': 40 + i, 'every': 3} for i in range(4)]
         s += [{'w': 'complete', 'n': 150, 'i': 60 + i, 'every': 2} for i in range(4)]
+        s += [{'w': 'jumpoff', 'n': 200, 'i': 80 + i, 'every': 2} for i in range(4)]
         return s
     s = [{'w': 'bfs', 'nj': 2, 'reg': 2, 'jo': 2, 'i': i, 'n': 48, 'split': 4, 'every': 4, 'max_states': 60000} for i in range(48)]
     s += [{'w': 'bfs', 'nj': 3, 'reg': 2, 'jo': 1, 'i': i, 'n': 32, 'split': 4, 'every': 10, 'max_states': 120000} for i in range(32)]
     s += [{'w': 'walk', 'n': 900, 'i': 400 + i, 'every': 2} for i in range(8)]
     s += [{'w': 'complete', 'n': 2500, 'i': 600 + i, 'every': 1} for i in range(8)]
+    s += [{'w': 'jumpoff', 'n': 2500, 'i': 700 + i, 'every': 2} for i in range(8)]
     return s
 
 
